@@ -145,6 +145,13 @@ def enumerate_cases(tier, seed):
                 cases.append({"fam": "collection", "shape": list(shape), "pattern": pat, "pre": pre, "as": "array"})
     for pat in ("hot", "ramp"):
         cases.append({"fam": "collection", "shape": [3, 3], "pattern": pat, "pre": "prefilled", "as": "clusters"})
+    # repeated application over the steps of a readout sequence (the detector is emptied between the steps as run_pipeline
+    # does - fully or keeping the pixels - and every step generates the same NUMBER of packets with other values)
+    for pat in ("hot", "ramp"):
+        for as_ in ("array", "clusters"):
+            for nd in (False, True):
+                cases.append({"fam": "collection", "shape": [3, 3], "pattern": pat, "pre": "initial", "as": as_,
+                              "steps": 3, "nd": nd})
     # conversion
     for shape in SHAPES:
         for pat in PATTERNS:
@@ -274,9 +281,49 @@ class Result:
 
 # ------------------------------------------------------------------ families
 
+def run_collection_steps(case, res):
+    from pyxel.models.charge_collection import simple_collection
+
+    from props.c14_charge_accounting import add_clusters
+
+    shape = tuple(case["shape"])
+    det = mk.detector("ccd", *shape)
+    det.empty()
+    pixel = np.zeros(shape)
+    for k in range(case["steps"]):
+        det.empty(not case["nd"] or k == 0)          # what run_pipeline does at the beginning of step k
+        if not case["nd"]:
+            pixel = np.zeros(shape)
+        charge = frame(case["pattern"], shape) * float(k + 1) + (7.0 if k == 1 else 0.0) * (frame(case["pattern"], shape) > 0)
+        if case["as"] == "array":
+            det.charge.add_charge_array(charge.copy())
+        else:
+            ys, xs = np.nonzero(charge)
+            pv, ph = det.geometry.pixel_vert_size, det.geometry.pixel_horz_size
+            add_clusters(det.charge, [(charge[y, x], (y + 0.5) * pv, (x + 0.5) * ph) for y, x in zip(ys, xs)])
+        try:
+            simple_collection(det)
+            res.n += 1
+            after = np.array(det.pixel.array, dtype=float)
+        except Exception as e:  # noqa: BLE001
+            res.bad({"code": "raised"}, f"step {k}: raised {type(e).__name__}: {e}")
+            return
+        exp = pixel + charge
+        if not (after.shape == exp.shape and np.array_equal(after, exp)):
+            res.bad({"code": "not-exact", "as": case["as"], "step": "later" if k else "first"},
+                    f"step {k} ({'non-destructive' if case['nd'] else 'destructive'}): pixel after collection {after.tolist()} "
+                    f"!= pixel before + generated charge {exp.tolist()}")
+            return
+        pixel = exp
+        res.sigs.append(_sig(after))
+    res.nontrivial = True
+
+
 def run_collection(case, res):
     from pyxel.models.charge_collection import simple_collection
 
+    if case.get("steps"):
+        return run_collection_steps(case, res)
     shape = tuple(case["shape"])
     det = mk.detector("ccd", *shape)
     charge = frame(case["pattern"], shape)
